@@ -39,6 +39,15 @@ CLAIMS["C15"] = dict(
    text="Decides that the terms computed by the key schedule, ExtractAndExpand, Encap/Decap context and per-message nonce are exactly the terms RFC 9180 defines (labels, suite ids, I2OSP framing, context order, lengths) for all 5 KEMs x 3 AEADs x 4 modes; that the sequence number advances by one per successful message, not on a rejected one, and never wraps; that VerifyPSKInputs and the set-up/role/length guards accept exactly the RFC's domain. HKDF/DH/AEAD internals are covered by C12/C06/C01.",
    note="Symbolic tokens are injective encodings built by the checker; the RFC terms are written out in vstat/props/C15.py.")
 
+CLAIMS["C07"] = dict(
+   technique="guard normalisation by region enumeration; piecewise observation rows for sentinel selection, EME block assembly and MGF1 with modelled callees",
+   text="Decides the Python-visible necessary conditions: message-length limits at encryption, ciphertext length = k and integer < n at decryption, ValueError on an OAEP decode failure, the sentinel returned exactly when the native decoder reports failure (including non-bytes sentinels), the EME-PKCS1-v1_5 block built with non-zero PS of the right length, MGF1's counter/concatenation/truncation. The branch-free accept/reject logic of pkcs1_decode.c is not decided.",
+   note="The native decoder's contract (result and output buffer) is taken from the comments of src/pkcs1_decode.c.")
+CLAIMS["C08"] = dict(
+   technique="abstract interpretation of __eq__ on object pairs differing in exactly one component/privacy/type; writer and reader rows compared with the checker's own DER/mpint encoder at encoding-boundary representatives",
+   text="Decides that every key/point __eq__ returns a definite False (never raises) for a foreign type, different privacy or any single differing component and True for equal components; that the OpenSSH (RFC 4251 mpint sign byte for top bytes 7F/80/81/FF), PKCS#1, SPKI and RFC 5915 writers emit exactly the standard's structure at the boundary representatives (including scalars with leading zero bytes) and that the PKCS#1 reader returns the same components. Identity over all keys and protection schemes is not decided.",
+   note="The DER/mpint oracle is vstat/spec/der.py, written from X.690/RFC 4251 independently of the repository.")
+
 NOT_YET = {}
 
 ALL = ["C%02d" % i for i in range(1, 21)]
